@@ -427,6 +427,20 @@ def partition_obs(arm, case, via, bystanders=()):
     ren = {garm: 'ARM'}
     obs = {'garm': 'ARM', 'before': before, 'via': via, 'asked_guids': {d: ren.get(g, g) for d, g in guids.items()},
            'parsed': {'start': parsed_mismatch(arm, before)}}
+    # round 7 (seed C13-13): half of the cases that name their partitions' graph ids partition the model a first time
+    # under the SAME ids and leave those partitions in the store; generate_adms replaces a graph whose id it is given,
+    # so the observed second partitioning must be what it is on a store without them (the model knows no difference).
+    # Partitions of the first pass under ids the second pass does not name (uuid-named ones) are removed.
+    import zlib
+    if guids and not bad and case.get('stale_first', zlib.crc32(json.dumps(case, sort_keys=True, default=str).encode()) & 1):
+        obs['stale_first'] = True
+        try:
+            arm.generate_adms(delegation_guids=dict(guids))
+        except Exception as e:
+            obs['stale_first'] = 'raised ' + type(e).__name__
+        for g in visible():
+            if g != garm and g not in guids.values():
+                storage.del_graph(g)
     try:
         adms = arm.generate_adms(delegation_guids=guids or None)
     except Exception as e:
